@@ -185,7 +185,7 @@ def alignOK (k : Nat) : List (Nat × Nat) → List Obs → Prop
   | g, .proc sr _ :: r => (∀ i, (sr, i) ∉ g) ∧ alignOK k g r
   | g, .handler _ _ _ :: r => alignOK k g r
   | g, .fired _ _ :: r => alignOK k g r
-  | g, .reg sr id :: r => alignOK k ((sr, id) :: g) r
+  | g, .reg sr id :: r => (∀ i, (sr, i) ∉ g) ∧ alignOK k ((sr, id) :: g) r
   | g, .reject _ _ _ :: r => alignOK k g r
   | g, .snap id _ _ :: r => (∀ sr, sr < k → (sr, id) ∈ g) ∧ alignOK k [] r
   | g, .ack _ :: r => alignOK k g r
@@ -531,10 +531,11 @@ theorem barrier_done {s : St} {sr id : Nat} (h : id = (virtCk s id).1)
 theorem barrier_failed {s : St} {sr id : Nat} (h : id = (virtCk s id).1)
     (hm : ((virtCk s id).2.filter (· ≠ sr)).isEmpty = true) (haf : s.ackFails = true) :
     barrier s sr id =
-      ({ (flush s).1 with ckpt := some ((virtCk s id).1, []), slots := release (flush s).1.slots, ackFails := false },
+      ({ (flush s).1 with ckpt := some ((virtCk s id).1, []), slots := release (flush s).1.slots, ackFails := false,
+                            dbFails := false },
        [.reg sr id] ++ (flush s).2 ++
-         [.snap (virtCk s id).1 (flush s).1.kv (flush s).1.timers, .ackfail (virtCk s id).1,
-          .released (parkedList s)]) := by
+         (if s.dbFails then [] else [.snap (virtCk s id).1 (flush s).1.kv (flush s).1.timers]) ++
+         [.ackfail (virtCk s id).1, .released (parkedList s)]) := by
   unfold barrier
   simp only []
   rw [if_neg (by simpa using h), if_pos hm, if_pos haf]
@@ -655,6 +656,7 @@ theorem barrier_inv {s : St} {p a g} (h : Inv base u0 s p a g) {sr id : Nat} (hs
           · simp only [hxs, if_false]
             exact (hcv x hx (hall x hx (Ne.symm hxs))).1
       · simp only [List.cons_append, List.nil_append, alignOK]
+        refine ⟨h.passed_not_got hsr hslot, ?_⟩
         rw [alignOK_append]
         refine ⟨hf.onlyH.alignOK _ _, ?_⟩
         simp only [alignOK, hf.onlyH.gotOf, and_true]
@@ -714,7 +716,8 @@ theorem barrier_inv {s : St} {p a g} (h : Inv base u0 s p a g) {sr id : Nat} (hs
             · refine Or.inr ((hgv x _).mpr ⟨rfl, hxk, ?_⟩)
               intro hin
               exact hxm (List.mem_filter.mpr ⟨hin, by simpa using hxs⟩)
-      · simp only [alignOK]
+      · simp only [alignOK, and_true]
+        exact h.passed_not_got hsr hslot
   · -- id mismatch: rejected, nothing changes
     rw [barrier_reject hid]
     have hsome : s.ckpt = some (virtCk s id) := by
@@ -756,6 +759,7 @@ theorem barrier_inv {s : St} {p a g} (h : Inv base u0 s p a g) {sr id : Nat} (hs
 /-- the actions of normal operation (everything but the injected ack failure and the redeploy) -/
 def Act.plain : Act → Bool
   | .armFail => false
+  | .armDbFail => false
   | .redeploy => false
   | _ => true
 
@@ -930,6 +934,7 @@ theorem stepLive_ok {s : St} {p a g} (h : Inv base u0 s p a g) (act : Act) (hpl 
   | tick => exact stepOK_ext h (timeout_ext s s.lastSet)
   | stale => exact stepOK_ext h (timeout_ext s s.prevSet)
   | armFail => simp [Act.plain] at hpl
+  | armDbFail => simp [Act.plain] at hpl
   | redeploy => simp [Act.plain] at hpl
   | cancel sr => exact stepOK_triv h
 
@@ -955,11 +960,19 @@ theorem barrier_timers (s : St) (sr id : Nat) : TimersStep s (barrier s sr id) :
   · split
     · have hf := flush_ext s
       split
-      · constructor
-        · simp [timersOf_append, timersOf, flush_timers]
-        · simp only [List.cons_append, List.nil_append, timersOK]
-          rw [timersOK_append]
-          exact ⟨hf.onlyH.timersOK _, by simp [timersOK, flush_timers]⟩
+      · cases hdb : s.dbFails
+        · simp only [Bool.false_eq_true, if_false]
+          constructor
+          · simp [timersOf_append, timersOf, flush_timers]
+          · simp only [List.cons_append, List.nil_append, List.append_assoc, timersOK]
+            rw [timersOK_append]
+            exact ⟨hf.onlyH.timersOK _, by simp [timersOK, flush_timers]⟩
+        · simp only [if_true, List.append_nil]
+          constructor
+          · simp [timersOf_append, timersOf, flush_timers]
+          · simp only [List.cons_append, List.nil_append, List.append_assoc, timersOK]
+            rw [timersOK_append]
+            exact ⟨hf.onlyH.timersOK _, by simp [timersOK]⟩
       · constructor
         · simp [timersOf_append, timersOf, flush_timers]
         · simp only [List.cons_append, List.nil_append, timersOK]
@@ -1029,6 +1042,7 @@ theorem step_timers (s : St) (act : Act) (hpl : act.plain = true) : TimersStep s
     | tick => exact timeout_timers s s.lastSet
     | stale => exact timeout_timers s s.prevSet
     | armFail => simp [Act.plain] at hpl
+    | armDbFail => simp [Act.plain] at hpl
     | redeploy => simp [Act.plain] at hpl
     | cancel sr => exact timersStep_triv s
 
@@ -1089,7 +1103,7 @@ theorem alignOK_blocked {k : Nat} {sr : Nat} {it : Item} : ∀ (mid : List Obs) 
     | reg x i =>
       simp only [List.cons_append, alignOK] at h
       obtain ⟨i0, hi0⟩ := hg
-      obtain ⟨id, S, T, hm⟩ := ih ((x, i) :: g) post ⟨i0, List.mem_cons_of_mem _ hi0⟩ h
+      obtain ⟨id, S, T, hm⟩ := ih ((x, i) :: g) post ⟨i0, List.mem_cons_of_mem _ hi0⟩ h.2
       exact ⟨id, S, T, List.mem_cons_of_mem _ hm⟩
     | proc x i =>
       simp only [List.cons_append, alignOK] at h
@@ -1121,7 +1135,7 @@ theorem alignOK_fresh {k : Nat} {id : Nat} {S : KVf} {T : Timers} : ∀ (mid : L
       · exact Or.inr (List.mem_cons_of_mem _ hm)
     | reg x i =>
       simp only [List.cons_append, alignOK] at h
-      rcases ih ((x, i) :: g) post h sr hsr with hg | hm
+      rcases ih ((x, i) :: g) post h.2 sr hsr with hg | hm
       · rcases List.mem_cons.mp hg with heq | hg
         · simp only [Prod.mk.injEq] at heq
           obtain ⟨rfl, rfl⟩ := heq
@@ -1139,6 +1153,84 @@ theorem alignOK_fresh {k : Nat} {id : Nat} {S : KVf} {T : Timers} : ∀ (mid : L
       rcases ih g post h sr hsr with hg | hm
       · exact Or.inl hg
       · exact Or.inr (List.mem_cons_of_mem _ hm)
+
+/-- no sender occurs twice among the accepted barriers -/
+def UniqueKeys (g : List (Nat × Nat)) : Prop := ∀ x i j, (x, i) ∈ g → (x, j) ∈ g → i = j
+
+theorem uniqueKeys_nil : UniqueKeys [] := by intro x i j h; cases h
+
+theorem UniqueKeys.cons {g : List (Nat × Nat)} (h : UniqueKeys g) {x i : Nat} (hx : ∀ j, (x, j) ∉ g) :
+    UniqueKeys ((x, i) :: g) := by
+  intro y a b ha hb
+  rcases List.mem_cons.mp ha with ha | ha <;> rcases List.mem_cons.mp hb with hb | hb
+  · simp only [Prod.mk.injEq] at ha hb
+    rw [ha.2, hb.2]
+  · simp only [Prod.mk.injEq] at ha
+    exact absurd hb (ha.1 ▸ hx b)
+  · simp only [Prod.mk.injEq] at hb
+    exact absurd ha (hb.1 ▸ hx a)
+  · exact h y a b ha hb
+
+theorem alignOK_uniqueKeys {k : Nat} : ∀ (o : List Obs) (g : List (Nat × Nat)), UniqueKeys g → alignOK k g o →
+    UniqueKeys (gotOf g o) := by
+  intro o
+  induction o with
+  | nil => intro g hu _; exact hu
+  | cons x r ih =>
+    intro g hu h
+    cases x with
+    | reg x i =>
+      simp only [alignOK] at h
+      exact ih _ (hu.cons h.1) h.2
+    | snap id S T =>
+      simp only [alignOK] at h
+      exact ih _ uniqueKeys_nil h.2
+    | proc x i =>
+      simp only [alignOK] at h
+      exact ih _ hu h.2
+    | handler _ _ _ | fired _ _ | aligned _ _ | busy _ | reject _ _ _ | ack _ | released _ | ackfail _
+    | completed _ | stopped | redeployed _ =>
+      simp only [alignOK] at h
+      exact ih _ hu h
+
+/-- …and the first snapshot after the accepted barrier `id` of `sr` carries that id -/
+theorem alignOK_blocked_id {k : Nat} {sr id : Nat} {it : Item} (hsr : sr < k) : ∀ (mid : List Obs)
+    (g : List (Nat × Nat)) (post : List Obs), UniqueKeys g → (sr, id) ∈ g →
+    alignOK k g (mid ++ .proc sr it :: post) →
+    ∃ m1 S T m2, mid = m1 ++ Obs.snap id S T :: m2 ∧ ∀ id' S' T', Obs.snap id' S' T' ∉ m1 := by
+  intro mid
+  induction mid with
+  | nil =>
+    intro g post _ hg h
+    simp only [List.nil_append, alignOK] at h
+    exact absurd hg (h.1 id)
+  | cons x r ih =>
+    intro g post hu hg h
+    have lift : ∀ {y : Obs}, (∀ id' S' T', y ≠ Obs.snap id' S' T') →
+        (∃ m1 S T m2, r = m1 ++ Obs.snap id S T :: m2 ∧ ∀ id' S' T', Obs.snap id' S' T' ∉ m1) →
+        ∃ m1 S T m2, y :: r = m1 ++ Obs.snap id S T :: m2 ∧ ∀ id' S' T', Obs.snap id' S' T' ∉ m1 := by
+      intro y hy ⟨m1, S, T, m2, e, hn⟩
+      refine ⟨y :: m1, S, T, m2, by rw [e]; rfl, ?_⟩
+      intro id' S' T' hin
+      rcases List.mem_cons.mp hin with heq | hin
+      · exact hy id' S' T' heq.symm
+      · exact hn id' S' T' hin
+    cases x with
+    | snap id' S T =>
+      simp only [List.cons_append, alignOK] at h
+      have : id' = id := hu sr id' id (h.1 sr hsr) hg
+      subst this
+      exact ⟨[], S, T, r, rfl, by intro _ _ _ hin; cases hin⟩
+    | reg x i =>
+      simp only [List.cons_append, alignOK] at h
+      exact lift (by intros; simp) (ih _ post (hu.cons h.1) (List.mem_cons_of_mem _ hg) h.2)
+    | proc x i =>
+      simp only [List.cons_append, alignOK] at h
+      exact lift (by intros; simp) (ih _ post hu hg h.2)
+    | handler _ _ _ | fired _ _ | aligned _ _ | busy _ | reject _ _ _ | ack _ | released _ | ackfail _
+    | completed _ | stopped | redeployed _ =>
+      simp only [List.cons_append, alignOK] at h
+      exact lift (by intros; simp) (ih _ post hu hg h)
 
 theorem timersOK_split {c : Timers} {pre post : List Obs} {id : Nat} {S : KVf} {T : Timers}
     (h : timersOK c (pre ++ .snap id S T :: post)) : T = timersOf c pre := by
@@ -1340,7 +1432,14 @@ theorem process_slots_quiet (s : St) (sr : Nat) (it : Item) :
     · exact ⟨by intro x hx; simp at hx; subst hx; simp, fun x h => h⟩
     · split
       · split
-        · exact ⟨hqs _ _ _ (by intro x hx; simp at hx; rcases hx with rfl | rfl | rfl <;> simp), hrel⟩
+        · refine ⟨?_, hrel⟩
+          refine Quiet.append (Quiet.append (Quiet.append ?_ hf.onlyH.quiet) ?_) ?_
+          · intro x hx; simp at hx; subst hx; simp
+          · intro x hx
+            split at hx
+            · cases hx
+            · simp at hx; subst hx; simp
+          · intro x hx; simp at hx; rcases hx with rfl | rfl <;> simp
         · exact ⟨hqs _ _ _ (by intro x hx; simp at hx; rcases hx with rfl | rfl | rfl <;> simp), hrel⟩
       · exact ⟨by intro x hx; simp at hx; subst hx; simp, fun x h => h⟩
 
@@ -1398,6 +1497,7 @@ theorem step_away (s : St) (c : List Nat) (h : NoneAt c s) (act : Act) :
       obtain ⟨q1, q2⟩ := hx.onlyH.quiet.away c
       exact ⟨by simp only [stepLive, q1]; intro x hxc; rw [hx.slots]; exact h x hxc, q2⟩
     | armFail => exact ⟨fun x hx => h x hx, trivial⟩
+    | armDbFail => exact ⟨fun x hx => h x hx, trivial⟩
     | cancel sr => exact ⟨h, trivial⟩
     | redeploy =>
       simp only [stepLive, redeploy, awayOf, awayOK, and_true]
@@ -1493,7 +1593,7 @@ holds whose actions are the original ones plus `go`s -/
 theorem hrun_sim : ∀ (has : List HAct) (h : HSt) (acc : List Obs),
     ∃ as : List Act, (hrunFrom h acc has).1.s = (runFrom h.s acc as).1 ∧
       (hrunFrom h acc has).2 = (runFrom h.s acc as).2 ∧
-      ∀ a ∈ as, a ∈ HAct.bases has ∨ ∃ x, a = Act.go x := by
+      ∀ a ∈ as, a ∈ HAct.bases has ∨ (∃ x, a = Act.go x) ∨ ∃ sr it, a = Act.align sr it := by
   intro has
   induction has with
   | nil => intro h acc; exact ⟨[], rfl, rfl, by intro a ha; cases ha⟩
@@ -1503,7 +1603,7 @@ theorem hrun_sim : ∀ (has : List HAct) (h : HSt) (acc : List Obs),
     -- a step that leaves `s` untouched and emits nothing
     have same : ∀ h' : HSt, h'.s = h.s → (∃ as : List Act, (hrunFrom h' (acc ++ []) r).1.s = (runFrom h.s acc as).1 ∧
         (hrunFrom h' (acc ++ []) r).2 = (runFrom h.s acc as).2 ∧
-        ∀ a ∈ as, a ∈ HAct.bases (ha :: r) ∨ ∃ x, a = Act.go x) := by
+        ∀ a ∈ as, a ∈ HAct.bases (ha :: r) ∨ (∃ x, a = Act.go x) ∨ ∃ sr it, a = Act.align sr it) := by
       intro h' hs
       obtain ⟨as, e1, e2, e3⟩ := ih h' (acc ++ [])
       refine ⟨as, by simpa [hs] using e1, by simpa [hs] using e2, ?_⟩
@@ -1514,10 +1614,10 @@ theorem hrun_sim : ∀ (has : List HAct) (h : HSt) (acc : List Obs),
       · exact Or.inr hg
     -- a step that runs the plain actions `l` on `s`
     have runs : ∀ (l : List Act) (h' : HSt), h'.s = (runFrom h.s [] l).1 →
-        (∀ a ∈ l, a ∈ HAct.bases (ha :: r) ∨ ∃ x, a = Act.go x) →
+        (∀ a ∈ l, a ∈ HAct.bases (ha :: r) ∨ (∃ x, a = Act.go x) ∨ ∃ sr it, a = Act.align sr it) →
         (∃ as : List Act, (hrunFrom h' (acc ++ (runFrom h.s [] l).2) r).1.s = (runFrom h.s acc as).1 ∧
           (hrunFrom h' (acc ++ (runFrom h.s [] l).2) r).2 = (runFrom h.s acc as).2 ∧
-          ∀ a ∈ as, a ∈ HAct.bases (ha :: r) ∨ ∃ x, a = Act.go x) := by
+          ∀ a ∈ as, a ∈ HAct.bases (ha :: r) ∨ (∃ x, a = Act.go x) ∨ ∃ sr it, a = Act.align sr it) := by
       intro l h' hs hl
       obtain ⟨as, e1, e2, e3⟩ := ih h' (acc ++ (runFrom h.s [] l).2)
       have hsplit : runFrom h.s acc (l ++ as) = runFrom h'.s (acc ++ (runFrom h.s [] l).2) as := by
@@ -1544,7 +1644,12 @@ theorem hrun_sim : ∀ (has : List HAct) (h : HSt) (acc : List Obs),
           split
           · exact same _ rfl
           · exact same _ rfl
-        | align _ _ | tick | stale | armFail | redeploy | cancel _ =>
+        | align _ _ =>
+          simp only [hstep, hh]
+          split
+          · exact same _ rfl
+          · exact same _ rfl
+        | tick | stale | armFail | armDbFail | redeploy | cancel _ =>
           simp only [hstep, hh]
           exact same _ rfl
     | hold sr =>
@@ -1554,7 +1659,7 @@ theorem hrun_sim : ∀ (has : List HAct) (h : HSt) (acc : List Obs),
         split
         · exact same _ rfl
         · have := runs [.go sr] { h with s := (step h.s (.go sr)).1 } (by simp [runFrom]) (by
-            intro b hb; simp at hb; subst hb; exact Or.inr ⟨sr, rfl⟩)
+            intro b hb; simp at hb; subst hb; exact Or.inr (Or.inl ⟨sr, rfl⟩))
           simpa [runFrom, hh] using this
       | some _ =>
         simp only [hstep, hh]
@@ -1566,12 +1671,225 @@ theorem hrun_sim : ∀ (has : List HAct) (h : HSt) (acc : List Obs),
         exact same _ rfl
       | some sr0 =>
         simp only [hstep, hh]
-        exact runs (.go sr0 :: h.queue.map .go) _ rfl (by
+        exact runs (.go sr0 :: h.queue.map .go ++ h.blocked.map fun x => .align x.1 x.2)
+          { s := (runFrom h.s [] (.go sr0 :: h.queue.map .go ++ h.blocked.map fun x => .align x.1 x.2)).1 } rfl (by
           intro b hb
           right
           rcases List.mem_cons.mp hb with rfl | hb
-          · exact ⟨sr0, rfl⟩
-          · obtain ⟨x, _, rfl⟩ := List.mem_map.mp hb
-            exact ⟨x, rfl⟩)
+          · exact Or.inl ⟨sr0, rfl⟩
+          · rcases List.mem_append.mp hb with hb | hb
+            · obtain ⟨x, _, rfl⟩ := List.mem_map.mp hb
+              exact Or.inl ⟨x, rfl⟩
+            · obtain ⟨x, _, rfl⟩ := List.mem_map.mp hb
+              exact Or.inr ⟨x.1, x.2, rfl⟩)
+
+/-! ## cancellations are invisible -/
+
+def Act.isCancel : Act → Bool
+  | .cancel _ => true
+  | _ => false
+
+theorem runFrom_filter_cancel : ∀ (as : List Act) (s : St) (acc : List Obs),
+    runFrom s acc as = runFrom s acc (as.filter fun a => !a.isCancel) := by
+  intro as
+  induction as with
+  | nil => intro s acc; rfl
+  | cons a r ih =>
+    intro s acc
+    cases a with
+    | cancel sr =>
+      have hst : step s (.cancel sr) = (s, []) := by unfold step; split <;> rfl
+      simp only [runFrom, hst, List.append_nil, List.filter_cons, Act.isCancel]
+      exact ih s acc
+    | align _ _ | go _ | tick | stale | armFail | armDbFail | redeploy =>
+      simp only [runFrom, List.filter_cons, Act.isCancel]
+      exact ih _ _
+
+/-! ## after a failed ack (or a failed `db.Checkpoint`) the completed record blocks checkpointing -/
+
+/-- the completed record of checkpoint `id` is in place and no call in flight carries barrier `id` again -/
+def StaleInv (id : Nat) (s : St) : Prop :=
+  s.ckpt = some (id, []) ∧ ∀ sr it b, s.slots sr = some (it, b) → it ≠ Item.bar id
+
+/-- actions that neither redeploy nor re-send barrier `id` -/
+def Act.keepsStale (id : Nat) : Act → Bool
+  | .redeploy => false
+  | .align _ (.bar j) => j != id
+  | _ => true
+
+/-- observations that would mean checkpointing made progress -/
+def Obs.isCkptProgress : Obs → Bool
+  | .snap _ _ _ => true
+  | .ack _ => true
+  | .ackfail _ => true
+  | .reg _ _ => true
+  | _ => false
+
+theorem OnlyH.noProgress {o : List Obs} (h : OnlyH o) : ∀ x ∈ o, x.isCkptProgress = false := by
+  intro x hx
+  rcases h x hx with ⟨_, _, _, rfl⟩ | ⟨_, _, rfl⟩ <;> rfl
+
+theorem stale_step {id : Nat} {s : St} (h : StaleInv id s) (a : Act) (ha : a.keepsStale id = true) :
+    StaleInv id (step s a).1 ∧ ∀ x ∈ (step s a).2, x.isCkptProgress = false := by
+  obtain ⟨hc, hsl⟩ := h
+  unfold step
+  split
+  · exact ⟨⟨hc, hsl⟩, by intro x hx; cases hx⟩
+  · cases a with
+    | align sr it =>
+      simp only [stepLive]
+      split
+      · split
+        · exact ⟨⟨hc, hsl⟩, by intro x hx; simp at hx; subst hx; rfl⟩
+        · refine ⟨⟨hc, ?_⟩, by intro x hx; simp at hx; subst hx; rfl⟩
+          intro x it' b hs
+          by_cases hx : x = sr
+          · simp only [hx, if_true, Option.some.injEq, Prod.mk.injEq] at hs
+            rw [← hs.1]
+            intro hbar
+            subst hbar
+            simp [Act.keepsStale] at ha
+          · simp only [hx, if_false] at hs
+            exact hsl x it' b hs
+      · exact ⟨⟨hc, hsl⟩, by intro x hx; cases hx⟩
+    | go sr =>
+      by_cases hsr : sr < s.k
+      · cases hs : s.slots sr with
+        | none => rw [stepLive_go_noop (Or.inr (by simp [hs]))]; exact ⟨⟨hc, hsl⟩, by intro x hx; cases hx⟩
+        | some v =>
+          obtain ⟨it, b⟩ := v
+          cases b with
+          | false => rw [stepLive_go_noop (Or.inr (by simp [hs]))]; exact ⟨⟨hc, hsl⟩, by intro x hx; cases hx⟩
+          | true =>
+            rw [stepLive_go_run hsr hs]
+            have clear : ∀ (s' : St), s'.slots = s.slots → ∀ x it' b,
+                (if x = sr then none else s'.slots x) = some (it', b) → it' ≠ Item.bar id := by
+              intro s' hs' x it' b hx
+              by_cases hxs : x = sr
+              · simp [hxs] at hx
+              · simp only [hxs, if_false] at hx
+                rw [hs'] at hx
+                exact hsl x it' b hx
+            cases it with
+            | ev key pl t =>
+              have hx := addEntry_ext s (.user sr key pl t)
+              refine ⟨⟨by simp only [process]; rw [hx.ckpt]; exact hc, clear _ hx.slots⟩, ?_⟩
+              intro x hxm
+              rcases List.mem_cons.mp hxm with rfl | hxm
+              · rfl
+              · exact hx.onlyH.noProgress x hxm
+            | wm ts =>
+              simp only [process]
+              obtain ⟨o, es, ho, hext, _, _⟩ := fireLoop_ext sr
+                (minWm s.k fun i => if i = sr then ts else s.wms i) s.timers.length
+                { s with wms := fun i => if i = sr then ts else s.wms i,
+                         watermark := minWm s.k fun i => if i = sr then ts else s.wms i } []
+              refine ⟨⟨by rw [hext.ckpt]; exact hc, clear _ hext.slots⟩, ?_⟩
+              intro x hxm
+              rcases List.mem_cons.mp hxm with rfl | hxm
+              · rfl
+              · rw [ho] at hxm
+                exact hext.onlyH.noProgress x (by simpa using hxm)
+            | done =>
+              simp only [process]
+              have hf := flush_ext s
+              refine ⟨⟨by simp only []; rw [hf.ckpt]; exact hc, clear _ hf.slots⟩, ?_⟩
+              intro x hxm
+              rcases List.mem_cons.mp hxm with rfl | hxm
+              · rfl
+              · rcases List.mem_append.mp hxm with hxm | hxm
+                · exact hf.onlyH.noProgress x hxm
+                · rcases List.mem_cons.mp hxm with rfl | hxm
+                  · rfl
+                  · split at hxm
+                    · simp at hxm; subst hxm; rfl
+                    · cases hxm
+            | bar j =>
+              have hne : j ≠ id := fun e => hsl sr (.bar j) true hs (by rw [e])
+              have hv : virtCk s j = (id, []) := by simp [virtCk, hc]
+              simp only [process]
+              rw [barrier_reject (by rw [hv]; exact hne), hv]
+              refine ⟨⟨rfl, clear _ rfl⟩, ?_⟩
+              intro x hxm
+              simp at hxm
+              rcases hxm with rfl | rfl <;> rfl
+      · rw [stepLive_go_noop (Or.inl hsr)]; exact ⟨⟨hc, hsl⟩, by intro x hx; cases hx⟩
+    | tick =>
+      have hx := timeout_ext s s.lastSet
+      exact ⟨⟨by simp only [stepLive]; rw [hx.ckpt]; exact hc, by simp only [stepLive]; rw [hx.slots]; exact hsl⟩,
+        hx.onlyH.noProgress⟩
+    | stale =>
+      have hx := timeout_ext s s.prevSet
+      exact ⟨⟨by simp only [stepLive]; rw [hx.ckpt]; exact hc, by simp only [stepLive]; rw [hx.slots]; exact hsl⟩,
+        hx.onlyH.noProgress⟩
+    | armFail => exact ⟨⟨hc, hsl⟩, by intro x hx; cases hx⟩
+    | armDbFail => exact ⟨⟨hc, hsl⟩, by intro x hx; cases hx⟩
+    | cancel sr => exact ⟨⟨hc, hsl⟩, by intro x hx; cases hx⟩
+    | redeploy => simp [Act.keepsStale] at ha
+
+theorem stale_run {id : Nat} : ∀ (as : List Act) (s : St) (acc : List Obs), StaleInv id s →
+    (∀ a ∈ as, a.keepsStale id = true) → (∀ x ∈ acc, x.isCkptProgress = false) →
+    StaleInv id (runFrom s acc as).1 ∧ ∀ x ∈ (runFrom s acc as).2, x.isCkptProgress = false := by
+  intro as
+  induction as with
+  | nil => intro s acc h _ hacc; exact ⟨h, hacc⟩
+  | cons a r ih =>
+    intro s acc h hk hacc
+    obtain ⟨h1, h2⟩ := stale_step h a (hk a List.mem_cons_self)
+    simp only [runFrom]
+    apply ih _ _ h1 (fun b hb => hk b (List.mem_cons_of_mem _ hb))
+    intro x hx
+    rcases List.mem_append.mp hx with hx | hx
+    · exact hacc x hx
+    · exact h2 x hx
+
+/-! ## the first cut of a trace, as data (for counterexamples by evaluation) -/
+
+/-- at the first snapshot: the keyed events the handler had received, and the keyed events the consumer had taken -/
+def firstCut : List (Nat × Item) → List Entry → List Obs → Option (List (Nat × Bytes × Nat × Nat) × List (Nat × Bytes × Nat × Nat))
+  | _, _, [] => none
+  | p, a, .snap _ _ _ :: _ => some (userOf a, userProcs p)
+  | p, a, .proc sr it :: r => firstCut (p ++ [(sr, it)]) a r
+  | p, a, .handler es _ _ :: r => firstCut p (a ++ es) r
+  | p, a, .aligned _ _ :: r => firstCut p a r
+  | p, a, .busy _ :: r => firstCut p a r
+  | p, a, .fired _ _ :: r => firstCut p a r
+  | p, a, .reg _ _ :: r => firstCut p a r
+  | p, a, .reject _ _ _ :: r => firstCut p a r
+  | p, a, .ack _ :: r => firstCut p a r
+  | p, a, .released _ :: r => firstCut p a r
+  | p, a, .ackfail _ :: r => firstCut p a r
+  | p, a, .completed _ :: r => firstCut p a r
+  | p, a, .stopped :: r => firstCut p a r
+  | p, a, .redeployed _ :: r => firstCut p a r
+
+theorem firstCut_spec : ∀ (obs : List Obs) (p : List (Nat × Item)) (a : List Entry) (u v),
+    firstCut p a obs = some (u, v) →
+    ∃ pre id S T post, obs = pre ++ Obs.snap id S T :: post ∧ u = userOf (a ++ entriesOf pre) ∧
+      v = userProcs (p ++ procsOf pre) := by
+  intro obs
+  induction obs with
+  | nil => intro p a u v h; simp [firstCut] at h
+  | cons x r ih =>
+    intro p a u v h
+    cases x with
+    | snap id S T =>
+      simp only [firstCut, Option.some.injEq, Prod.mk.injEq] at h
+      exact ⟨[], id, S, T, r, rfl, by simp [entriesOf, h.1], by simp [procsOf, h.2]⟩
+    | proc sr it =>
+      simp only [firstCut] at h
+      obtain ⟨pre, id, S, T, post, e, hu, hv⟩ := ih _ _ _ _ h
+      exact ⟨.proc sr it :: pre, id, S, T, post, by rw [e]; rfl, by simpa [entriesOf] using hu,
+        by simpa [procsOf, List.append_assoc] using hv⟩
+    | handler es w g =>
+      simp only [firstCut] at h
+      obtain ⟨pre, id, S, T, post, e, hu, hv⟩ := ih _ _ _ _ h
+      exact ⟨.handler es w g :: pre, id, S, T, post, by rw [e]; rfl, by simpa [entriesOf, List.append_assoc] using hu,
+        by simpa [procsOf] using hv⟩
+    | aligned _ _ | busy _ | fired _ _ | reg _ _ | reject _ _ _ | ack _ | released _ | ackfail _ | completed _
+    | stopped | redeployed _ =>
+      simp only [firstCut] at h
+      obtain ⟨pre, id, S, T, post, e, hu, hv⟩ := ih _ _ _ _ h
+      exact ⟨_ :: pre, id, S, T, post, by rw [e]; rfl, by simpa [entriesOf] using hu, by simpa [procsOf] using hv⟩
 
 end Rxn.Align
